@@ -31,6 +31,10 @@ CLAIMED = {
          "request targets in the C01 class."),
  "C17": ("Theorems: file_invariant (for EVERY history of calls: while an instance is alive the file exists with mode 0600 and holds the current data incl. the token member), construct_establishes, set_data_keeps, admit_iff_token, removed_on_destroy. Tie: LocalAuthMiddleware with HOME redirected: histories x umasks x pre-existing permissive file, file mode/content observed after EVERY call, process() with token variants. PARTIAL: 'tokens of distinct instances differ' is randomness of QUuid - observed (N successive instances distinct), not proved.",
          "QUuid, QJsonDocument are oracles; data values are strings; one live instance per application name."),
+ "C12": ("Theorems: body_in_order (for EVERY interleaving of body segments with the moment the upstream connection completes: head then exactly the body bytes in order), upstream_target_clean (no SP/CR/LF in the request target for every routed path), upstream_path_same_resource (the path part decodes to '/' ++ routed path), headers_preserved (every client header; one X-Forwarded-For; X-Real-IP unless present; as a permutation), xff_ends_with_peer, head_shape. Tie: ProxyHandler between a client on SimTcp and a scripted upstream on loopback: methods x paths (space, CR/LF, non-ASCII, escapes) x queries/fragments x header sets x bodies x connect timing; upstream bytes re-parsed by the independent request grammar.",
+         "loopback TCP between proxy and the harness' upstream server; client address = SimTcp peer address; the equality of decoded query strings is checked on observations, not proved."),
+ "C13": ("Theorems: relay_any_segmentation (for EVERY segmentation of the upstream stream the proxy sets exactly the upstream status/reason/header map and writes exactly the bytes after the blank line), wait_for_head, relay_wire, relayed_headers_multiset (each value once under its name), fault_502 (unparsable head / bad status / error before a complete head -> one 502), closes_with_upstream, 502_bytes. Tie: scripted upstream responses: codes 99..600, reasons, repeated headers, bodies, segmentations incl. every split point, close after every k, refused.",
+         "loopback TCP may coalesce upstream segments sent within a few ms (each is flushed and the event loop pumped in between)."),
  "C14": ("Theorems: copies_slice (every content, block size >= 1, forward/open range: exactly the requested bytes clipped at the end, one completion), block_copy invariant, stop_halts (after stop(): for every later schedule no byte and no completion), start_failure / block_failure (error then the single completion), sequential_copy (every arrival partition: concatenation, completion once). Tie: QIODeviceCopier over scripted devices: exhaustive small contents x block sizes x ranges, stop at every turn, failing primitives, all arrival partitions.",
          "Scripted QIODevice subclasses stand in for files/sockets; a range on a sequential source is outside the documented API."),
  "C16": ("Theorems over a literal model of range.cpp for all integers: valid_known, invalid_shape, valid_iff, string_iff, ctor_wf, copy_resize_preserve, no 64-bit overflow below 2^62, model meets the boolean statement. Tie: exhaustive small triples, all short strings, boundary-biased values against the real Range class.",
